@@ -265,6 +265,8 @@ class FluxInterface_0490(FluxInterface):
     def state(state):
         if state == "D":        # Note this is actually short for DEPEND and is part of flux' pending virtual state
             return State.PENDING
+        elif state == "P":      # PRIORITY, also part of flux's pending virtual state
+            return State.PENDING
         elif state == "S":      # Note this is short for SCHED and is also part of flux's pending virtual state
             return State.QUEUED
         elif state == "R":
